@@ -106,20 +106,70 @@ namespace
         }
 
         // ---- build: fresh object (both constructors) or update of a persistent one (both overloads)
-        std::unique_ptr<Spline> fresh;
+        // qorder = query variant + 10 * build variant.  Build variants (all must give the same object):
+        //   0 direct;  1 via the object's own members (arguments alias the members);  2 moved into place;  3 copied into place
+        long bvar = qorder / 10;
+        qorder %= 10;
+        std::unique_ptr<Spline> fresh, tmp;
         Spline *sp;
+        auto make = [&]() {
+            return (mode == "tp") ? new Spline(times, P, bc) : new Spline(times, P, t0, bc);
+        };
         if (slot < 0)
         {
-            if (mode == "tp")
-                fresh.reset(new Spline(times, P, bc));
+            if (bvar == 2)
+            {
+                tmp.reset(make());
+                fresh.reset(new Spline(std::move(*tmp)));
+                tmp.reset();
+            }
+            else if (bvar == 3)
+            {
+                tmp.reset(make());
+                (void)tmp->getTrajectory().evaluate(tmp->getStartTime(), 0);
+                fresh.reset(new Spline(*tmp));
+                tmp.reset();                       // the copy must survive its source
+            }
             else
-                fresh.reset(new Spline(times, P, t0, bc));
+                fresh.reset(make());
             sp = fresh.get();
         }
         else
         {
             sp = &slots()[slot];
-            if (mode == "tp")
+            if (bvar == 1)
+            {
+                // first through the other overload, then again through the object's own members
+                if (mode == "tp")
+                {
+                    std::vector<double> segs(times.size() > 0 ? times.size() - 1 : 0);
+                    for (size_t i = 0; i + 1 < times.size(); ++i) segs[i] = times[i + 1] - times[i];
+                    sp->update(segs, P, times.empty() ? 0.0 : times.front(), bc);
+                    sp->update(sp->getCumulativeTimes(), sp->getSpacePoints(), sp->getBoundaryConditions());
+                    // the time-point overload recomputes durations as differences: identical only if those are exact; use the
+                    // requested form as the last word so that the reply is the one of a direct update
+                    sp->update(times, sp->getSpacePoints(), sp->getBoundaryConditions());
+                }
+                else
+                {
+                    sp->update(times, P, t0 + 1.5, bc);
+                    sp->update(sp->getTimeSegments(), sp->getSpacePoints(), t0, sp->getBoundaryConditions());
+                }
+            }
+            else if (bvar == 2)
+            {
+                tmp.reset(make());
+                *sp = std::move(*tmp);
+                tmp.reset();
+            }
+            else if (bvar == 3)
+            {
+                tmp.reset(make());
+                (void)tmp->getTrajectory().evaluate(tmp->getStartTime(), 0);
+                *sp = *tmp;
+                tmp.reset();
+            }
+            else if (mode == "tp")
                 sp->update(times, P, bc);
             else
                 sp->update(times, P, t0, bc);
@@ -141,7 +191,7 @@ namespace
         // (qorder 1), wrong shape (qorder 2), or none (value-returning overloads, qorder 0)
         const long nsegq = (long)sp->getNumSegments();
         auto dirty = [&](typename Spline::Gradients &g) {
-            if (qorder == 1)
+            if (qorder == 1 || qorder == 3)
             {
                 g.inner_points = Mat::Constant(std::max<long>(nsegq - 1, 0), D, 1.5);
                 g.times = Eigen::VectorXd::Constant(nsegq, -2.25);
@@ -163,10 +213,10 @@ namespace
                 R.pgt = sp->getEnergyPartialGradByTimes();
                 return;
             }
-            Mat gdC = (qorder == 1) ? Mat(Mat::Constant(nsegq * NC, D, 7.25)) : Mat(Mat::Constant(nsegq * NC + 5, D, -0.375));
+            Mat gdC = (qorder == 1 || qorder == 3) ? Mat(Mat::Constant(nsegq * NC, D, 7.25)) : Mat(Mat::Constant(nsegq * NC + 5, D, -0.375));
             sp->getEnergyPartialGradByCoeffs(gdC);
             R.pgc = gdC;
-            Eigen::VectorXd gdT = (qorder == 1) ? Eigen::VectorXd(Eigen::VectorXd::Constant(nsegq, -3.5))
+            Eigen::VectorXd gdT = (qorder == 1 || qorder == 3) ? Eigen::VectorXd(Eigen::VectorXd::Constant(nsegq, -3.5))
                                                 : Eigen::VectorXd(Eigen::VectorXd::Constant(nsegq + 1, 6.125));
             sp->getEnergyPartialGradByTimes(gdT);
             R.pgt = gdT;
@@ -191,6 +241,13 @@ namespace
             typename Spline::Gradients g;
             if (qorder == 0)
                 g = sp->propagateGrad(gC, gT); // value-returning overload
+            else if (qorder == 3)
+            {
+                // in place: the upstream duration gradient lives in the output record itself (input aliases output)
+                dirty(g);
+                g.times = gT;
+                sp->propagateGrad(gC, g.times, g);
+            }
             else
             {
                 dirty(g);
@@ -209,7 +266,7 @@ namespace
                 R.evs.push_back(sp->getTrajectory().evaluate(e.first, (int)e.second));
         };
         std::vector<std::function<void()>> qs = {q_struct, q_energy, q_partials, q_egrad, q_prop, q_eval};
-        if (qorder == 1)
+        if (qorder == 1 || qorder == 3)
             for (auto it = qs.rbegin(); it != qs.rend(); ++it) (*it)();
         else if (qorder == 2)
         {
